@@ -742,13 +742,19 @@ func units(tier string) []engine.Unit {
 			run(r, &cfg[any]{name: "any", alpha: []any{int64(1), "x", 2.5}, array: arr}, maxN)
 		})
 	}
+	ladderN := 40
+	if tier == "thorough" {
+		ladderN = 130
+	}
+	add("List[int] size ladder", func(r *engine.Rec) { ladder(r, false, ladderN) })
+	add("Array[int] size ladder", func(r *engine.Rec) { ladder(r, true, ladderN) })
 	return us
 }
 
 func init() {
 	engine.Register(&engine.Check{
 		ID:        "C01",
-		Technique: "explicit-state search over the real List/Array objects: BFS from every constructor, every operation of the alphabet (all indices -n-2..n+2, all slots 0..n+2, empty/aliased/foreign operand sequences, every random answer sequence for ShuffleValues) in every reachable state, states keyed by a dump of the private fields, each transition compared with a Go-slice reference model",
+		Technique: "explicit-state search over the real List/Array objects: BFS from every constructor, every operation of the alphabet (all indices -n-2..n+2, all slots 0..n+2, empty/aliased/foreign operand sequences, every random answer sequence for ShuffleValues) in every reachable state, states keyed by a dump of the private fields, each transition compared with a Go-slice reference model; plus a size ladder (every size 0..40, 130 thorough, x 8 shapes x 22 operations with boundary arguments on fresh objects, and grow/shrink chains through every size on one object)",
 		Rule:      "state = canonical dump of the object's private fields; transition = (state, operation) executed on a freshly rebuilt real object; distinct = distinct dumps",
 		Assume:    []string{"sizes up to the bound of the tier; value alphabets of 3 values per element type; NaN excluded (C07/C08)", "fuel budget 4e5 ticks per call decides non-termination"},
 		Budget: func(tier string) time.Duration {
